@@ -142,6 +142,8 @@ def generate(repo, registry, contract, variant=None, fnode_override=None, opts=N
         I = Exec(repo, registry, forced, vcs, unit_label(contract, variant), opts=dict(opts or {}))
         I.opts.setdefault("force_inline", contract.inline_callees)
         I.opts["externals"] = contract.externals
+        for k_, v_ in contract.opts.items():
+            I.opts.setdefault(k_, v_)
         if fnode_override is not None:
             I.opts["override"] = {contract.key: fnode_override}
         try:
